@@ -81,11 +81,43 @@ def fmt_value(v):
         if len(pieces) == 1 and pieces[0][0] == "fmt" and isinstance(pieces[0][1], tuple) and pieces[0][1][0] == "fmtargs":
             fa = pieces[0][1]
             tpl = decode_template(fa[1]) if isinstance(fa[1], str) else None
-            return {"kind": "fmt", "template": tpl, "args": list(fa[2]), "cap": buf[2] if buf[0] == "newbuf" else None}
+            args = list(fa[2])
+            if tpl is not None:
+                tpl, args = _fold_literal_args(tpl, args)
+            return {"kind": "fmt", "template": tpl, "args": args, "cap": buf[2] if buf[0] == "newbuf" else None}
         return {"kind": "bytes", "pieces": pieces}
     if v[0] == "call" and v[1].endswith("fmt_http_date"):
         return {"kind": "httpdate", "time": v[2][0]}
     return {"kind": "term", "term": v}
+
+
+def _fold_literal_args(tpl, args):
+    """a `{}` whose argument is a string literal known on this path (Display of a constant &str) is part of the literal text"""
+    out = []
+    keep = []
+    remap = {}
+    for p in tpl:
+        if p[0] == "arg" and p[1] < len(args):
+            a = args[p[1]]
+            if isinstance(a, tuple) and a[0] == "fmtarg" and a[1] == "display" and isinstance(a[3], tuple) and a[3][0] == "str":
+                if out and out[-1][0] == "lit":
+                    out[-1] = ("lit", out[-1][1] + a[3][1])
+                else:
+                    out.append(("lit", a[3][1]))
+                continue
+            if p[1] not in remap:
+                remap[p[1]] = len(keep)
+                keep.append(a)
+            out.append(("arg", remap[p[1]]))
+        else:
+            if p[0] == "lit" and out and out[-1][0] == "lit":
+                out[-1] = ("lit", out[-1][1] + p[1])
+            else:
+                out.append(p)
+    if len(keep) != len(args) and any(i not in remap for i in range(len(args)) if not (
+            isinstance(args[i], tuple) and args[i][0] == "fmtarg" and args[i][1] == "display" and isinstance(args[i][3], tuple) and args[i][3][0] == "str")):
+        return tpl, args     # an argument is not referenced by the template: leave everything as it is
+    return out, keep
 
 
 def template_text(tpl):
